@@ -153,6 +153,10 @@ func handleDeleteWhere(p *DeletePlan) error {
 		return nil
 	}
 
+	if err := checkNoSubqueryReadingTable(p.StmtInfo, stmt.Where); err != nil {
+		return err
+	}
+
 	has, result, decorator, err := handleComparisonExpr(p.TableAliasStmtInfo, stmt.Where)
 	if err != nil {
 		return fmt.Errorf("rewrite Where error: %v", err)
